@@ -712,3 +712,63 @@ func (c *Ctx) NoEarlyExit(fn *ssa.Function, over VM, label string) int {
 	}
 	return n
 }
+
+// ErrorsPropagate: for every error value that fn obtains from a call and tests
+// against nil, no success return of fn (error result nil) is reachable from the
+// arm on which that error is non-nil: a failure of a callee is never turned
+// into an accepted result. Returns the number of (error value) instances.
+func (c *Ctx) ErrorsPropagate(fn *ssa.Function, label string, skip func(*ssa.Call) bool) int {
+	res := fn.Signature.Results()
+	if res.Len() == 0 || !isErrorType(res.At(res.Len()-1).Type()) {
+		return 0
+	}
+	errIdx := res.Len() - 1
+	succ := successReturns(fn, errIdx)
+	tested := map[ssa.Value]bool{}
+	for _, b := range fn.Blocks {
+		i, ok := b.Instrs[len(b.Instrs)-1].(*ssa.If)
+		if !ok {
+			continue
+		}
+		bo, ok := i.Cond.(*ssa.BinOp)
+		if !ok || (bo.Op != token.NEQ && bo.Op != token.EQL) {
+			continue
+		}
+		var v ssa.Value
+		switch {
+		case ConstNil(bo.Y) && isErrorType(bo.X.Type()):
+			v = bo.X
+		case ConstNil(bo.X) && isErrorType(bo.Y.Type()):
+			v = bo.Y
+		}
+		if v == nil {
+			continue
+		}
+		// only errors produced by calls
+		var call *ssa.Call
+		switch x := v.(type) {
+		case *ssa.Call:
+			call = x
+		case *ssa.Extract:
+			call, _ = x.Tuple.(*ssa.Call)
+		}
+		if call == nil || (skip != nil && skip(call)) {
+			continue
+		}
+		tested[v] = true
+	}
+	n := 0
+	for v := range tested {
+		n++
+		v := v
+		for _, r := range succ {
+			c.Unreachable(r, label+":error-of-"+valStr(v)+"-not-swallowed", NotNil(func(x ssa.Value) bool { return x == v }))
+		}
+	}
+	return n
+}
+
+func isErrorType(t types.Type) bool {
+	n, ok := t.(*types.Named)
+	return ok && n.Obj().Pkg() == nil && n.Obj().Name() == "error"
+}
